@@ -102,7 +102,7 @@ fn run(cfg: &RunCfg) -> Report {
     let ns = cfg.nshards as u64;
     let sh = cfg.shard as u64;
     let small = cfg.is_small();
-    let per_len = if small { 1 } else { cfg.n(cfg.pick(300, 40_000)) };
+    let per_len = if small { 1 } else { cfg.n(cfg.pick(2000, 40_000)) };
     let mut idx = 0u64;
     for ntypes in 0..=30usize {
         for k in 0..per_len {
